@@ -3,9 +3,10 @@ from fractions import Fraction as F
 
 from ..common import seed_rng
 from ..meshgen import INITIAL_GRIDS, Batch, enumerate_histories, random_op
+from ..meshops_tie import PROP_MOD as MESHOPS_PROP_MOD, TRUSTED as MESHOPS_TRUSTED, translate_meshops
 from ..meshlib import oracle_mesh, PyMesh
 
-PROP_MODS = ['Stbem.Props.C02', 'Stbem.Props.C02Closure']
+PROP_MODS = ['Stbem.Props.C02', 'Stbem.Props.C02Closure', MESHOPS_PROP_MOD]
 RULE = ('lock-step correspondence of src/mesh.py (run on Fraction coordinates) with the Lean A-layer model: after '
         'every operation the full state (leaves in order with coordinates, levels, index, parent; vertex list; '
         'reported neighbours per side in order; boundary/seam flags; element counter) must be identical. '
@@ -19,9 +20,16 @@ TRUSTED = [
     '(harness/meshlib.py, harness/meshgen.py, Driver/MeshCmd.lean)',
     'modelled rather than verified: the half-edge pointer structure (Vertex/Edge objects) is represented by its '
     'observable content (geometric neighbours, vertex coordinates); binary64 rounding of midpoints is not modelled',
+    MESHOPS_TRUSTED,
 ]
 ASSUMPTIONS = ['coordinates are exact rationals (Fractions in the correspondence run; dyadic floats are exact too)',
                'OrderedDict / list.sort(stable) semantics of CPython']
+
+
+def translate(res):
+    """Regenerates lean/Stbem/Gen/MeshOps.lean from the refinement drivers of src/mesh.py (broken obligation when a
+    construct is outside the translated fragment)."""
+    translate_meshops(res)
 
 
 def _closure_happened(pm, ops):
@@ -31,7 +39,7 @@ def _closure_happened(pm, ops):
 
 def correspond(res, tier):
     rng = seed_rng(res.seed, 'C02')
-    batch = Batch()
+    batch = Batch(generated=True)
     depth = 4 if tier == 'quick' else 6
     finals = []
     # exhaustive bounded part
@@ -101,8 +109,11 @@ def correspond(res, tier):
                 res.violation('C02:operation-raises:' + str(ops[-1][0]), dict(history=batch.histories[-1], interleaved=True))
     dis = batch.run()
     res.notes['model_lines'] = len(batch.lines)
+    res.notes['generated_model_lines'] = batch.n_generated
     if dis is not None:
-        res.broken_obligation('correspondence C02: A-layer model and src/mesh.py differ', repr(dis)[:6000])
+        res.broken_obligation('correspondence C02: A-layer model%s and src/mesh.py differ' %
+                              (' REGENERATED from src/mesh.py (gmesh)' if dis.get('kind') == 'disagreement-generated' else ''),
+                              repr(dis)[:6000])
         res.notes['disagreement'] = dis
     # oracle on the final states of the random histories (and of a sample of the exhaustive ones)
     for pm, glue, X, T, hist in finals:
